@@ -15,7 +15,9 @@ func init() {
 }
 
 var jsonStrAtoms = []string{"a", "B", " ", "\"", "\\", "/", "<", ">", "&", "'", "\n", "\t", "\r", "\b", "\f", "\x01", "\x1f", "\x7f", "é", "日本", "😀", " ", " ",
-	"</script>", "<!--", "]]>", "{", "}", "[", "]", ":", ",", "null", "0"}
+	"</script>", "<!--", "]]>", "{", "}", "[", "]", ":", ",", "null", "0",
+	// text that LOOKS like JSON escapes (a backslash followed by the letters of an escape): data, not syntax
+	"\\u0026", "\\u003c", "\\u003e", "\\u2028", "\\n", "\\\"", "u0026", "\\\\", "\\/", "&amp;", "&lt;", "%s", "\u0085"}
 
 func jsonString(r *Rng) string {
 	n := r.Range(0, 6)
